@@ -100,6 +100,10 @@ def build(cfg, quiet=True):
     out = os.path.join(CACHE, "%s-%s" % (cfg, key))
     stamp = os.path.join(out, "OK")
     if os.path.exists(stamp):
+        try:
+            os.utime(stamp, None)          # last use: the cleanup below goes by this, never by the age of the build
+        except OSError:
+            pass
         return out
     os.makedirs(CACHE, exist_ok=True)
     # one builder per configuration at a time (several checks / helpers may run concurrently)
@@ -122,7 +126,9 @@ def _build_locked(cfg, cc, cflags, ldflags, th, out, stamp, quiet):
         if d.startswith(cfg + "-") and os.path.join(CACHE, d) != out:
             full = os.path.join(CACHE, d)
             try:
-                if now - os.path.getmtime(full) > 2400:
+                st = os.path.join(full, "OK")
+                last = os.path.getmtime(st) if os.path.exists(st) else os.path.getmtime(full)
+                if now - last > 3 * 3600:          # not used for three hours (a running check touches the stamp at every job)
                     shutil.rmtree(full, ignore_errors=True)
             except OSError:
                 pass
